@@ -214,12 +214,36 @@ def strip_comments(t):
     return "".join(out)
 
 
-def forbidden_scan():
+def deps_closure(files):
+    """Transitive closure of `From BV Require Import/Export a.B c.D` starting from the given coq/-relative files."""
+    seen, todo = set(), list(files)
+    while todo:
+        f = todo.pop()
+        if f in seen or not os.path.exists(os.path.join(COQ, f)):
+            continue
+        seen.add(f)
+        txt = strip_comments(open(os.path.join(COQ, f)).read())
+        for m in re.finditer(r"From\s+BV\s+Require\s+(?:Import\s+|Export\s+)?(.*?)\.(?=\s)", txt + " ", re.S):
+            for mod in m.group(1).split():
+                todo.append(mod.replace(".", "/") + ".v")
+        for m in re.finditer(r"Require\s+(?:Import\s+|Export\s+)?(.*?)\.(?=\s)", txt + " ", re.S):
+            for mod in m.group(1).split():
+                if mod.startswith("BV."):
+                    todo.append(mod[3:].replace(".", "/") + ".v")
+    return sorted(seen)
+
+
+def forbidden_scan(only=None):
+    """Scans the whole development (only=None: used by ./setup and the final audit) or the dependency
+    closure of a property's files (used by each check, so that another family's work in progress
+    cannot fail it)."""
     bad = []
     for root, _, files in os.walk(COQ):
         for f in files:
             if f.endswith(".v"):
                 p = os.path.join(root, f)
+                if only is not None and os.path.relpath(p, COQ) not in only:
+                    continue
                 txt = strip_comments(open(p).read())
                 # string literals may legitimately contain words; drop them
                 txt = re.sub(r'"[^"]*"', '""', txt)
